@@ -36,7 +36,9 @@ def run_property(pid: str, repo: str, tier: str, seed: int, quiet: bool = False,
         # about the code.  With such a site on the path and no verdict of rule M itself, their violations are withheld and
         # the run ends undecided (exit 2) — never a pass, never an alarm on code where the property holds.
         transparent = ledger.extra.get("rule_M_transparent_sites") or []
-        own = [o for o in ledger.obligations if o.status == "violation" and o.rule != "M"]
+        listed = ledger._known()
+        own = [o for o in ledger.obligations if o.status == "violation" and o.rule != "M"
+               and not any(k.get("rule") == o.rule and k.get("construct") == o.construct and (not k.get("stmt") or k.get("stmt") == o.stmt) for k in listed)]
         if transparent and own and not any(o.status == "violation" and o.rule == "M" for o in ledger.obligations):
             raise _Undecided(f"{len(own)} finding(s) of rule(s) {sorted({o.rule for o in own})} were reached through code that goes through the correctly keyed memo "
                              f"{', '.join(transparent[:3])}, which those rules do not see through: undecided (first: {own[0].construct})")
